@@ -104,6 +104,79 @@ func c02(r *Run) {
 		}
 	}
 
+	// fieldWriters: module functions that may (transitively) store into UnsafeLinkBuffer.<field>
+	fwCache := map[string]map[*ssa.Function]bool{}
+	fieldWriters := func(field string) map[*ssa.Function]bool {
+		if m, ok := fwCache[field]; ok {
+			return m
+		}
+		m := map[*ssa.Function]bool{}
+		for _, f := range w.Funcs {
+			forEachIns(f, func(i ssa.Instruction) {
+				if isStoreToField(i, "UnsafeLinkBuffer", field) {
+					m[f] = true
+				}
+			})
+		}
+		for changed := true; changed; {
+			changed = false
+			for _, f := range w.Funcs {
+				if m[f] {
+					continue
+				}
+				forEachIns(f, func(i ssa.Instruction) {
+					if _, isDefer := i.(*ssa.Defer); isDefer {
+						return
+					}
+					if c := calleeOf(i); c != nil && m[c] && !m[f] {
+						m[f] = true
+						changed = true
+					}
+				})
+			}
+		}
+		fwCache[field] = m
+		return m
+	}
+	// markedNodeIsHandedOut: when the node is named through a cursor field (b.read, b.flush), the mark
+	// must come after the last re-assignment of that cursor - otherwise another node is marked than
+	// the one whose memory leaves.
+	markedNodeIsHandedOut := func(key string, fn *ssa.Function, site ssa.Instruction, path string) {
+		dot := strings.LastIndex(path, ".")
+		if dot < 0 || strings.Contains(path, ":") {
+			return
+		}
+		base, field := path[:dot], path[dot+1:]
+		fw := fieldWriters(field)
+		var wit *Witness
+		n := 0
+		forEachIns(fn, func(i ssa.Instruction) {
+			if wit != nil {
+				return
+			}
+			moves := false
+			if st, ok := i.(*ssa.Store); ok && isStoreToField(i, "UnsafeLinkBuffer", field) {
+				if _, _, b, ok := fieldOf(st.Addr); ok && stablePath(b) == base {
+					moves = true
+				}
+			} else if _, isDefer := i.(*ssa.Defer); !isDefer {
+				if c := calleeOf(i); c != nil && fw[c] {
+					moves = true
+				}
+			}
+			if !moves {
+				return
+			}
+			n++
+			ss := &Search{Fn: fn, Stop: marks(path)}
+			if p := ss.Find([]Start{After(i)}, isIns(site), false); p != nil {
+				wit = p
+			}
+			r.Visited += ss.Visited
+		})
+		r.obW(key, "the node that is marked is the node whose memory is handed out: no re-assignment of the cursor ("+path+") lies between the mark and the hand-out", fn, site, wit, fmt.Sprintf("%d cursor moves in the function, each followed by a fresh mark before this hand-out", n))
+	}
+
 	// ---- R1 exposure marking ------------------------------------------------------------------------
 	nEsc := 0
 	for _, name := range []string{"Next", "Peek", "Slice", "GetBytes", "Until", "ReadByte", "readBinary", "readCopy", "Skip", "ReadString", "ReadBinary"} {
@@ -124,6 +197,7 @@ func c02(r *Run) {
 			nEsc++
 			path := stablePath(c.Call.Args[0])
 			r.precedes("C02.R1:exposed-before-escape:"+siteKey(w, ins), "node memory that is handed to the caller (not merely copied) comes from a node that was marked flagReadExposed first, so copying reads do not recycle it", fn, ins, marks(path), nil, "setFlag(flagReadExposed) on "+path+" dominates")
+			markedNodeIsHandedOut("C02.R1:marked-node-is-handed-out:"+siteKey(w, ins), fn, ins, path)
 		}
 		// direct node.buf[...] slices that escape
 		for _, ins := range allIns(fn) {
@@ -141,6 +215,7 @@ func c02(r *Run) {
 			nEsc++
 			path := stablePath(base)
 			r.precedes("C02.R1:exposed-before-escape:"+siteKey(w, ins)+":slice:"+path, "a direct slice of node.buf that is handed out comes from a node marked flagReadExposed first", fn, ins, marks(path), nil, "setFlag(flagReadExposed) on "+path+" dominates")
+			markedNodeIsHandedOut("C02.R1:marked-node-is-handed-out:"+siteKey(w, ins)+":slice:"+path, fn, ins, path)
 		}
 	}
 	if nEsc < 6 {
